@@ -286,6 +286,27 @@ def tick (s : St) (tx : Bytes) : St × Keepalive :=
   ({ tickState s with pending := if tickKeepalive s = .credentialed then s.pending ++ [tx] else s.pending },
    tickKeepalive s)
 
+/-! ### the TCP stream table (`IceGatherer::tcp_streams`) — written BEFORE any authentication -/
+
+/-- one entry per key: the listener address for accepted connections (`run_tcp_listen_loop`,
+`attach_demuxed_tcp_stream`), the connection's local address for outbound ones; the value is the stream,
+identified here by its peer address -/
+abbrev TcpTable := List (Addr × Addr)
+
+/-- `store_tcp_stream(key, wrapper)` = `HashMap::insert`: the newest stream under a key replaces the old one -/
+def storeTcpStream (t : TcpTable) (key peer : Addr) : TcpTable := (key, peer) :: t.filter (fun e => e.1 ≠ key)
+
+/-- `run_tcp_listen_loop` on `accept()` / `attach_demuxed_tcp_stream` on the first frame: the connection is stored
+(and handed to the runner) before a single byte has been authenticated -/
+def acceptTcp (t : TcpTable) (listen peer : Addr) : TcpTable := storeTcpStream t listen peer
+
+/-- the TCP branch of `resolve_socket` (keepalive tick, selection after the checks): a stream whose peer is the
+pair's remote address, else whatever is stored under the local base address (`get_tcp_socket`) -/
+def resolveTcp (t : TcpTable) (pairRemote localBase : Addr) : Option Addr :=
+  match t.find? (fun e => e.2 = pairRemote) with
+  | some e => some e.2
+  | none => (t.find? (fun e => e.1 = localBase)).map (·.2)
+
 /-! ### other consumers of STUN responses -/
 
 /-- `IceGatherer::probe_stun` (server-reflexive gathering): what it takes from the datagram it received for
